@@ -33,6 +33,7 @@ func init() {
 				}
 				return r
 			}()),
+			ruleLineExtractor("C11.extract"),
 		},
 	})
 }
